@@ -17,17 +17,17 @@ EXTENDS Scenarios
 
 TargetKinds == {"local", "aux1", "aux2", "aux3", "trans", "selfrec", "mutual", "arrayself", "mapself",
                 "auxarrayself", "anonprop", "anonitems", "anonallof", "anonsibling", "sharedparam", "sharedresp", "diamond",
-                "uptrans", "crosstrans", "recdep", "recmap", "anonimport"}
-Shapes      == {"prim", "object", "arrayref", "tuple", "allof", "map", "nested", "ptrarray", "ref"}
+                "uptrans", "crosstrans", "recdep", "recmap", "anonimport", "auxcase"}
+Shapes      == {"prim", "object", "arrayref", "tuple", "allof", "map", "nested", "ptrarray", "ref", "additemsref", "nestedfree"}
 HolderKinds == {"prop", "items", "tuple", "addprops", "additems", "allof", "alias", "opbody", "pathbody",
                 "code", "default", "sharedparam", "sharedresp", "nested", "opnested", "opitems",
-                "auxresp", "auxparam", "auxpathitem", "unusedparam", "unusedresp", "unusedalias", "casesiblings", "pathbodyinline", "oddcode", "dupids",
+                "auxresp", "auxparam", "auxpathitem", "unusedparam", "unusedresp", "unusedalias", "casesiblings", "pathbodyinline", "oddcode", "dupids", "refsib", "unuseddef", "additems1",
                 "patprop", "anyof", "oneof", "not", "nesteddefs"}
 AuxHolders  == {"auxresp", "auxparam", "auxpathitem"}
-SecondKinds == {"none", "code", "prop2", "same"}
+SecondKinds == {"none", "code", "prop2", "same", "codes2"}
 Collisions  == {"none", "exact", "case", "twoimports", "gennames"}
 
-AuxTargets  == {"aux1", "aux2", "aux3", "trans", "selfrec", "mutual", "auxarrayself", "diamond", "uptrans", "crosstrans", "recdep", "recmap"}
+AuxTargets  == {"aux1", "aux2", "aux3", "trans", "selfrec", "mutual", "auxarrayself", "diamond", "uptrans", "crosstrans", "recdep", "recmap", "auxcase"}
 AnonTargets == {"anonprop", "anonitems", "anonallof", "anonsibling", "anonimport"}
 SharedPtrTargets == {"sharedparam", "sharedresp"}
 
@@ -45,6 +45,10 @@ Body(s, helper) ==
     [] s = "allof"    -> Mk(<<>>, [allOf |-> ListOf(<<helper, ObjP([N_6 |-> Str])>>)])
     [] s = "map"      -> Obj([additionalProperties |-> ObjP([N_6 |-> Int])])
     [] s = "ref"      -> helper      \* the target is itself nothing but a $ref to a top-level definition
+    \* a $ref under additionalItems beside a SINGLE items schema (not a tuple)
+    [] s = "additemsref" -> Mk([type |-> "array"], [items |-> Int, additionalItems |-> helper])
+    \* $ref-free (so it may collide by name) and yet with an anonymous complex schema inside
+    [] s = "nestedfree" -> ObjP([N_6 |-> ObjP([N_13 |-> Str]), N_14 |-> Int])
     [] s = "nested"   -> ObjP([N_6 |-> ObjP([N_13 |-> Str]), N_14 |-> Mk([type |-> "array"], [items |-> ObjP([N_15 |-> helper])])])
     \* an array whose items are a further anonymous pointer, to the sibling property N_4 (only with target kind anonprop)
     [] s = "ptrarray" -> Mk([type |-> "array"], [items |-> RefTo(<<"root", "definitions", "N_1", "properties", "N_4">>)])
@@ -90,8 +94,10 @@ TargetOf(t, s) ==
     \* a recursive imported definition N_2 that uses the imported definition N_1 twice (N_1 is the one that may collide by name):
     \* the recursion survives Expand, so the import, collision and de-duplication machinery runs in every mode
     [] t = "recdep" -> [ref |-> <<"aux1", "definitions", "N_2">>, rootdefs |-> <<>>,
+                       \* (N_1 is also reached one import round later, through N_22)
                        aux |-> [aux1 |-> AuxDoc([N_2 |-> ObjP([N_3 |-> RefTo(<<"aux1", "definitions", "N_2">>), N_4 |-> RefTo(<<"aux1", "definitions", "N_1">>),
-                                                               N_5 |-> RefTo(<<"aux1", "definitions", "N_1">>)]),
+                                                               N_5 |-> RefTo(<<"aux1", "definitions", "N_1">>), N_23 |-> RefTo(<<"aux1", "definitions", "N_22">>)]),
+                                                 N_22 |-> ObjP([N_24 |-> RefTo(<<"aux1", "definitions", "N_1">>)]),
                                                  N_1 |-> Body(s, HelperIn("aux1")), N_7 |-> HelperDef])], params |-> <<>>, resps |-> <<>>]
     \* a recursive imported definition that uses a map-of-itself definition of a third document: in Expand mode both recursions survive
     \* the expansion, and the third document is met under two spellings of its location
@@ -99,6 +105,9 @@ TargetOf(t, s) ==
                        aux |-> [aux1 |-> AuxDoc([N_1 |-> ObjP([N_3 |-> RefTo(<<"aux1", "definitions", "N_1">>), N_4 |-> RefTo(<<"aux3", "definitions", "N_2">>),
                                                                N_5 |-> Body(s, HelperIn("aux1"))]), N_7 |-> HelperDef]),
                                 aux3 |-> AuxDoc([N_2 |-> Obj([additionalProperties |-> RefTo(<<"aux3", "definitions", "N_2">>)])])], params |-> <<>>, resps |-> <<>>]
+    \* two definitions of one auxiliary document that differ by letter case only, both used (the second one by an extra path, see Assemble)
+    [] t = "auxcase" -> [ref |-> <<"aux1", "definitions", "N_1">>, rootdefs |-> <<>>,
+                       aux |-> [aux1 |-> AuxDoc([N_1 |-> Body(s, HelperIn("aux1")), C_1 |-> Mk([type |-> "boolean"], <<>>), N_7 |-> HelperDef])], params |-> <<>>, resps |-> <<>>]
     [] t = "arrayself" -> [ref |-> <<"root", "definitions", "N_1">>,
                        rootdefs |-> [N_1 |-> Mk([type |-> "array"], [items |-> RefTo(<<"root", "definitions", "N_1">>)])],
                        aux |-> <<>>, params |-> <<>>, resps |-> <<>>]
@@ -159,6 +168,11 @@ Holder(h, REF) ==
     [] h = "additems" -> inDef(Mk([type |-> "array"], [items |-> ListOf(<<Int>>), additionalItems |-> REF]))
     [] h = "allof"    -> inDef(Mk(<<>>, [allOf |-> ListOf(<<REF, ObjP([N_10 |-> Str])>>)]))
     [] h = "alias"    -> inDef(REF)
+    [] h = "additems1" -> inDef(Mk([type |-> "array"], [items |-> Int, additionalItems |-> REF]))
+    \* a $ref with schema-bearing siblings: the $ref below the sibling is the ONLY reference to its target (JSON-reference semantics ignore
+    \* the siblings, the document still holds them and what they refer to)
+    [] h = "refsib"   -> [defs |-> [N_8 |-> Mk(("$ref" :> <<"root", "definitions", "N_21">>), [properties |-> Mk(<<>>, [N_9 |-> REF])]), N_21 |-> ObjP([N_10 |-> Str])],
+                           params |-> <<>>, resps |-> <<>>, path |-> PathItemWith([get |-> UseDef("N_8")])]
     \* the keywords Swagger 2 does not use but the schema model carries (each is a different container type in replace.go)
     [] h = "patprop"  -> inDef(Obj([patternProperties |-> Mk(<<>>, [N_9 |-> REF])]))
     [] h = "anyof"    -> inDef(Mk(<<>>, [anyOf |-> ListOf(<<Str, REF>>)]))
@@ -195,6 +209,9 @@ Holder(h, REF) ==
                              path |-> PathItemWith([get |-> Op([responses |-> OkResponses])])]
     \* an alias definition that nothing refers to, beside a user of the same target: after a name collision the alias becomes
     \* the home of the imported schema (stripOAIGen) and every other holder is re-pointed to it
+    \* a definition nothing refers to, holding an anonymous complex schema: full flattening names it, RemoveUnused must then remove both
+    [] h = "unuseddef" -> [defs |-> [N_8 |-> ObjP([N_9 |-> ObjP([N_11 |-> REF, N_10 |-> Str])])], params |-> <<>>, resps |-> <<>>,
+                           path |-> PathItemWith([get |-> Op([responses |-> OkResponses])])]
     [] h = "unusedalias" -> [defs |-> [N_8 |-> REF], params |-> <<>>, resps |-> <<>>,
                              path |-> PathItemWith([get |-> Op([responses |-> Mk(<<>>, ("200" :> Resp([schema |-> REF])))])])]
     [] h = "sharedparam" -> [defs |-> <<>>, params |-> [N_12 |-> BodyParam(REF)], resps |-> <<>>,
@@ -207,6 +224,9 @@ Second(h2, REF) ==
     [] h2 = "code"  -> [defs |-> <<>>, path |-> ("P_2" :> PathItemWith([get |-> OpId("second", [responses |-> Mk(<<>>, ("200" :> Resp([schema |-> REF])))])]))]
     [] h2 = "prop2" -> [defs |-> [N_16 |-> ObjP([N_17 |-> REF])],
                         path |-> ("P_2" :> PathItemWith([get |-> Mk([operationId |-> "second"], [responses |-> Mk(<<>>, ("200" :> Resp([schema |-> RefTo(<<"root", "definitions", "N_16">>)])))])]))]
+    \* two more holders (three referrers in all)
+    [] h2 = "codes2" -> [defs |-> <<>>, path |-> ("P_2" :> PathItemWith([get |-> OpId("second", [responses |-> Mk(<<>>, ("200" :> Resp([schema |-> REF])))])]))
+                                                  @@ ("P_6" :> PathItemWith([get |-> OpId("sixth", [responses |-> Mk(<<>>, ("200" :> Resp([schema |-> REF])))])]))]
     [] h2 = "same"  -> [defs |-> <<>>, path |-> ("P_2" :> PathItemWith([post |-> Mk([operationId |-> "second"], [parameters |-> ListOf(<<BodyParam(REF)>>), responses |-> OkResponses])]))]
 
 \* name collisions between an imported definition (N_1 of an auxiliary document) and the root
@@ -227,12 +247,17 @@ Collide(c, t) ==
 Op2(at, ch) == Mk(at, ch)
 
 \* W: imported definitions may collide only when the imported definition is itself $ref-free
-RefFreeShape(s) == s \in {"prim", "object", "map"}
+RefFreeShape(s) == s \in {"prim", "object", "map", "nestedfree"}
 ValidCombo(t, s, h, h2, c) ==
   /\ (t \in {"arrayself", "mapself", "auxarrayself"} => s = "prim")           \* the shape is fixed by the kind
   /\ (c # "none" => t \in {"aux1", "aux2", "diamond", "recdep"} /\ RefFreeShape(s))
   /\ (c = "twoimports" => t # "aux3")
   /\ (t = "anonimport" => RefFreeShape(s) /\ c = "none")
+  /\ (s = "additemsref" => t \in {"aux1", "local", "selfrec"} /\ h2 \in {"none", "code"})
+  /\ (s = "nestedfree" => t = "aux1" /\ h \in {"prop", "alias", "code", "opitems", "unusedalias"})
+  /\ (h2 = "codes2" => c # "none" /\ h \in {"prop", "code", "nested", "opbody"})
+  /\ (h \in {"refsib", "unuseddef", "additems1"} => t \in {"aux1", "local", "anonprop"} /\ h2 \in {"none", "code"})
+  /\ (t = "auxcase" => s \in {"prim", "object"} /\ h \in {"prop", "code", "opbody", "alias"} /\ c = "none")
   /\ (c = "gennames" => h = "nested" /\ t \in {"aux1", "diamond"})
   /\ (c # "none" /\ t = "diamond" => RefFreeShape(s))
   /\ (s = "ptrarray" <=> FALSE) \/ (s = "ptrarray" /\ t = "anonprop")
@@ -257,7 +282,10 @@ Assemble(t, s, h, h2, c) ==
                 THEN ("P_5" :> PathItemWith([get  |-> OpId("dup2", [responses |-> Mk(<<>>, ("200" :> Resp([schema |-> ObjP([N_12 |-> Int])])))]),
                                              post |-> OpId("dup", [parameters |-> ListOf(<<BodyParam(ObjP([N_13 |-> Str]))>>), responses |-> OkResponses])]))
                 ELSE <<>>
-      paths  == ("P_1" :> H.path) @@ S2.path @@ C.path @@ dia @@ xp
+      cas    == IF t = "auxcase"
+                THEN ("P_7" :> PathItemWith([get |-> OpId("seventh", [responses |-> Mk(<<>>, ("200" :> Resp([schema |-> RefTo(<<"aux1", "definitions", "C_1">>)])))])]))
+                ELSE <<>>
+      paths  == ("P_1" :> H.path) @@ S2.path @@ C.path @@ dia @@ xp @@ cas
       extra  == (IF DOMAIN params = {} THEN <<>> ELSE [parameters |-> Mk(<<>>, params)]) @@
                 (IF DOMAIN resps = {} THEN <<>> ELSE [responses |-> Mk(<<>>, resps)])
       \* a root without any definition has no "definitions" section at all (the code then starts from a nil map)
